@@ -439,6 +439,9 @@ CHECKS["C18"] = {
         {"name": "client-race", "pkg": "cliworld", "run": "^TestC18Client$", "race": True,
          "quick": {"shards": 2, "checks": 150, "timeout_s": 500},
          "thorough": {"shards": 8, "checks": 3000, "timeout_s": 3000}},
+        {"name": "client-tcp-close-race", "pkg": "cliworld", "run": "^TestC18ClientTCPClose$", "race": True,
+         "quick": {"shards": 4, "checks": 10, "timeout_s": 400},
+         "thorough": {"shards": 16, "checks": 120, "timeout_s": 2000}},
         {"name": "transaction-ties-race", "pkg": "cliworld", "run": "^TestC18Ties$", "race": True,
          "quick": {"shards": 4, "checks": 1500, "timeout_s": 500},
          "thorough": {"shards": 16, "checks": 30000, "timeout_s": 3000}},
